@@ -1,7 +1,23 @@
 import Driver.Util
 import DiskfsModel.Model.Ext4.Mkfs
+import DiskfsModel.Model.Ext4.MkfsBitmap
 namespace Driver.Ext4Mkfs
 open Diskfs.Ext4.Mkfs Driver
+
+/-- maximal runs of set bits as `pos+count`, comma separated -/
+def runsOf (bits : List Bool) : String :=
+  let step := fun (st : Nat × Option Nat × List String) (b : Bool) =>
+    let (pos, from?, acc) := st
+    match b, from? with
+    | true, none => (pos + 1, some pos, acc)
+    | true, some f => (pos + 1, some f, acc)
+    | false, some f => (pos + 1, none, s!"{f}+{pos - f}" :: acc)
+    | false, none => (pos + 1, none, acc)
+  let (pos, from?, acc) := bits.foldl step (0, none, [])
+  let acc := match from? with
+    | some f => s!"{f}+{pos - f}" :: acc
+    | none => acc
+  ",".intercalate acc.reverse
 
 def layout (args : List String) : String :=
   let p : Params := Params.mk (argNatD args "size") (argNatD args "spb") (argNatD args "bpg")
@@ -11,7 +27,16 @@ def layout (args : List String) : String :=
   | .error _ => "refused"
   | .ok l =>
     let bb := (List.range l.groups).map fun g => toString (metaBase l p.flex g)
-    s!"bs={l.bs}\tnb={l.numBlocks}\tbpg={l.bpg}\tgroups={l.groups}\tipg={l.ipg}\ticount={l.inodeCount}\tfdb={l.fdb}\trsv={l.rsvGdt}\tbb={",".intercalate bb}\tfits={if decide (Fits l p.flex) then 1 else 0}"
+    let fits := decide (Fits l p.flex)
+    -- the group bitmaps (mkBitmaps, restricted to the real blocks of each group) and the descriptors' free counts
+    let used := if fits then
+        ";".intercalate ((List.range l.groups).map fun g =>
+          runsOf ((List.range (blocksInGroup l g)).map (markedBit l p.flex g)))
+      else "-"
+    let free := if fits then
+        ",".intercalate ((List.range l.groups).map fun g => toString (initialFree l p.flex g))
+      else "-"
+    s!"bs={l.bs}\tnb={l.numBlocks}\tbpg={l.bpg}\tgroups={l.groups}\tipg={l.ipg}\ticount={l.inodeCount}\tfdb={l.fdb}\trsv={l.rsvGdt}\tbb={",".intercalate bb}\tfits={if fits then 1 else 0}\tused={used}\tfree={free}"
 
 end Driver.Ext4Mkfs
 
